@@ -98,6 +98,76 @@ pub fn check_select(sys: &SelSys, spec: &SelSpec) -> Vec<Fail> {
     fails
 }
 
+/// the dialect-construct families of C08 (named WINDOW, ORDER BY forms on SELECT / window / UPDATE / DELETE, join
+/// forms, CTE options, index hints / DISTINCT ON / TABLESAMPLE / locking that SQLite must drop, enum casts) executed on
+/// the engine: sea-query's SQLite text against the explicit SQLite reference text of the same declaration
+fn run_constructs(rep: &Arc<Report>) -> (u64, u64) {
+    use crate::lex::Dialect;
+    use crate::report::Violation;
+    let ex = crate::props::c08::extras(rep.thorough());
+    let (mut executed, mut skipped) = (0u64, 0u64);
+    for e in &ex {
+        let Some(reference) = (e.reference)(Dialect::Sqlite, false) else {
+            skipped += 1;
+            continue;
+        };
+        let family = crate::props::c08::family_of(&e.name);
+        let mut fail = |sig: &str, detail: String| {
+            rep.raw_failures.inc();
+            rep.violation(Violation { key: format!("construct|sqlite|{sig}|{family}"), what: format!("{}: {detail}", e.name), case: json!({"kind": "construct", "name": e.name}) });
+        };
+        let real = match catch(|| (e.real)(Dialect::Sqlite, false)) {
+            Ok(s) => s,
+            Err(p) => {
+                fail("render-panic", format!("to_string panicked: {p}"));
+                continue;
+            }
+        };
+        let is_query = reference.starts_with("SELECT") || reference.starts_with("WITH");
+        if is_query {
+            let want = match with_db(|db| db.query(&reference, &[])) {
+                Ok(r) => r,
+                Err(e) => {
+                    note_skip(&e);
+                    skipped += 1;
+                    continue;
+                }
+            };
+            executed += 1;
+            // a trailing ORDER BY makes the row order part of the answer
+            let ordered = reference.rfind(" ORDER BY ").map_or(false, |i| reference.rfind(')').map_or(true, |j| i > j));
+            let canon = |r: &crate::sqlite::Rows| if ordered { row_list(r) } else { row_multiset(r) };
+            match with_db(|db| db.query(&real, &[])) {
+                Err(e) => fail("engine-rejects-inline", format!("sqlite3 rejects {real:?}: {e}; the reference {reference:?} is accepted")),
+                Ok(r) => {
+                    if canon(&r) != canon(&want) {
+                        fail("rows-differ-inline", format!("{real:?} returns {:?}, the reference {reference:?} returns {:?}", canon(&r), canon(&want)));
+                    }
+                }
+            }
+        } else {
+            let want = match dml::run_dml(&reference, &[]) {
+                Ok(r) => r,
+                Err(e) => {
+                    note_skip(&e);
+                    skipped += 1;
+                    continue;
+                }
+            };
+            executed += 1;
+            match dml::run_dml(&real, &[]) {
+                Err(e) => fail("engine-rejects-inline", format!("sqlite3 rejects {real:?}: {e}; the reference {reference:?} is accepted")),
+                Ok(r) => {
+                    if r != want {
+                        fail("effect-differs-inline", format!("{real:?} has effect {:?}, the reference {reference:?} has {:?}", r, want));
+                    }
+                }
+            }
+        }
+    }
+    (executed, skipped)
+}
+
 pub fn run(rep: &Arc<Report>) {
     let depth = if rep.thorough() { 5 } else { 4 };
     let m = SelModel { name: "select", menu: select_menu(rep.thorough(), true), checks: vec![Box::new(check_select)], sqlite_only: true };
@@ -106,6 +176,9 @@ pub fn run(rep: &Arc<Report>) {
     let (api_cmp, api_variants) = crate::props::apivar::run(rep, &[crate::lex::Dialect::Sqlite]);
     rep.set("api_variant_comparisons", json!(api_cmp));
     rep.set("api_variants", json!(api_variants));
+    let (cx, cs) = run_constructs(rep);
+    rep.set("construct_cases_executed_on_engine", json!(cx));
+    rep.set("construct_cases_out_of_domain", json!(cs));
     let live = LIVE_CLASSES.lock().unwrap().clone();
     rep.set("select_menu_size", json!(m.menu.len()));
     rep.set("states", json!(st.states + dst.states));
@@ -147,6 +220,11 @@ pub fn run(rep: &Arc<Report>) {
 pub fn replay(case: &serde_json::Value) -> Option<String> {
     if case["kind"].as_str() == Some("api-variant") {
         return crate::props::apivar::replay(case);
+    }
+    if case["kind"].as_str() == Some("construct") {
+        let rep = Arc::new(Report::new("C07", "thorough"));
+        run_constructs(&rep);
+        return rep.find_violation("construct|sqlite|").filter(|v| v.contains(case["name"].as_str().unwrap_or("")));
     }
     let ops: Vec<String> = case["ops"].as_array().map(|a| a.iter().filter_map(|x| x.as_str().map(String::from)).collect()).unwrap_or_default();
     match case["model"].as_str().unwrap_or("") {
